@@ -50,6 +50,14 @@ theorem choose_moves_exactly (T : Tests) (P : Params) (s s' : Store) (tries : In
       a.sum = (a.sel.map (·.value)).sum ∧ (a.sum = P.target ∨ a.sum ≥ P.target + P.mc) :=
   chooseUtxos_spec T P s tries a s' hk h
 
+/-- chooseUtxos never panics on an unspent record with pairwise different outpoints, whatever the values (equal values
+    and several outputs of one transaction included), parameters and float answers: the removal walk always finds the
+    selected outputs. (Before the repair of `Utxos.Less` two equal-value outputs of one transaction could make it run
+    off the end of the record.) -/
+theorem choose_never_panics (T : Tests) (P : Params) (s : Store) (tries : Int)
+    (hk : (s.utxos.map opKey).Nodup) : chooseUtxos T P s tries ≠ .panic :=
+  chooseUtxos_no_panic T P s tries hk
+
 /-- Over every history of deposits and withdrawals (any parameters, any float answers, failed withdrawals included):
     if the outpoints initially unspent and the outpoints deposited later are pairwise different, then no outpoint is
     ever selected twice — neither inside one withdrawal nor by two different withdrawals — and nothing selected is
